@@ -21,7 +21,9 @@ def scenarios(thorough=False):
         for sc in engine_props.corpus(random.Random(0), False):
             # (machines with an execution time limit are left out: an execution stuck through C04-F1/F2/F4 is then ended
             # by the limit, States.Timeout, and the exact classification of those findings needs to see it stuck)
-            if sc.extra.get("fail_payload") is None and "TimeoutSeconds" not in sc.machine and not sc.name.startswith("oversize") \
+            # (the large generated machines kept in corpus/engine.json for C02 / C11 are left out too: several of the open
+            # findings combine in them in ways neither the model's skeletons nor the fallback classifier cover)
+            if sc.extra.get("fail_payload") is None and "TimeoutSeconds" not in sc.machine and not sc.name.startswith(("oversize", "gen")) \
                     and sc.sm_type == "STANDARD":
                 sc.name = "corpus:" + sc.name
                 out.append(sc)
@@ -77,6 +79,7 @@ def start(scn, share_stores):
             return r
         s.add_worker(fn, plan)
     ea = s.start_execution(ARN + "m1", json.loads(json.dumps(scn.data)), name="e1")
+    s.plans = pl            # (the oracle of the run, for the reference semantics)
     return s, ea
 
 
@@ -204,6 +207,21 @@ LEGACY = {"C04-F1": "redelivered-task-never-requested", "C04-F2": "branch-reply-
           "C04-F4": "nested-join-result-volatile"}
 
 
+def model_skeleton(chk, scn, s, ea):
+    """the skeleton of the scenario's crash-free run as `Asl.run` computes it (None: outside the skeletons)"""
+    import crashmodel as cm
+    if scn.extra.get("machines") or not hasattr(s, "plans"):
+        return None
+    from props import c01
+    a = common.driver([c01.model_line(scn.machine, scn.data, ea, s.plans.oracle())])[0].split("\t")
+    if a[0] != "ok":
+        return None
+    try:
+        return cm.model_skeleton(json.loads(a[1]))
+    except cm.Unsupported:
+        return None
+
+
 def classify_by_model(f, case, impl, model):
     """A stuck run is the known finding `f` exactly when the protocol model (lean/AslModel/Crash.lean) with the switches
     of all open findings on reproduces what the engine did, and with `f`'s switch off it does not (`explained_by`, computed
@@ -315,20 +333,42 @@ def run(chk):
             ref_trace = list(s.trace)
             ops = s.broker.op_count.get("conn1", 0)
             ref_hist = s.history(ea)
+            # the skeleton: computed by the reference semantics from the machine, the input and the workers' behaviour
+            # (`sk` of Asl.run); what the engine's own events say is only the cross-check
             try:
-                skel = cm.skeleton(scn.machine, s.broker.log, ref.get("status") == "FAILED")
+                skel_engine = cm.skeleton(scn.machine, s.broker.log, ref.get("status") == "FAILED")
             except cm.Unsupported as e:
-                skel = None
-                chk.dist("skeleton.unsupported")
-            else:
+                skel_engine = None
+            skel = model_skeleton(chk, scn, s, ea)
+            if skel is not None:
+                chk.dist("skeleton.extracted")          # (the name the distribution had before: a skeleton there is)
+                chk.dist("skeleton.from_reference_semantics")
+                if skel_engine is not None and cj(skel_engine) == cj(skel):
+                    chk.dist("skeleton.engine_events_agree")
+                elif skel_engine is not None:
+                    chk.report("impl-differs-from-spec", {"scenario": scn.name, "machine": scn.machine, "input": scn.data, "plans": scn.plans},
+                               impl={"skeleton_from_engine_events": skel_engine}, model={"skeleton": skel},
+                               law="the visits of the crash-free run (the events the engine published) are the skeleton the "
+                                   "reference semantics computes")
+                else:
+                    chk.dist("skeleton.engine_events_unsupported")
+            elif skel_engine is not None:
+                skel = skel_engine
                 chk.dist("skeleton.extracted")
+                chk.dist("skeleton.from_engine_events_only")
+            else:
+                chk.dist("skeleton.unsupported")
             s.close()
             if ref.get("status") not in ("SUCCEEDED", "FAILED"):
                 raise common.InfraError("reference run of %s did not terminate" % scn.name)
             term_at = len(ref_trace)
             store = "shared-store" if share else "memory-store"
             # --- crash between two handler invocations
-            for i in range(1, term_at):
+            between = list(range(1, term_at))
+            if len(between) > 80:       # long generated scenarios of the shared corpus: a seeded sample of their crash points
+                between = sorted(chk.rng.sample(between, 80))
+                chk.dist("crash.points_sampled")
+            for i in between:
                 s, ea = start(scn, share)
                 lab = cm.Labeller(s)
                 for st in ref_trace[:i]:
@@ -370,6 +410,9 @@ def run(chk):
                 s.close()
             # --- crash after an individual broker operation inside a handler (and a second crash later, thorough)
             step_ops = range(1, ops + 1) if (not quick or ops <= 40) else range(1, ops + 1, 2)
+            if len(step_ops) > 120:
+                step_ops = sorted(chk.rng.sample(list(step_ops), 120))
+                chk.dist("crash.points_sampled")
             for n in step_ops:
                 for second in ([None] if quick else [None, 2]):
                     s, ea = start(scn, share)
@@ -431,7 +474,8 @@ def run(chk):
                        "publish/ack of the engine connection (terminal status still reached and equal)%s; restart = new engine objects, "
                        "same instance id, broker redelivers what was unacknowledged; distinct = distinct (scenario, store, crash point); "
                        "every crash run is also given to the crash protocol model (lean/AslModel/Crash.lean): the skeleton of the "
-                       "execution from the events the crash-free run published, the schedule from the run's handler invocations "
+                       "execution as Asl.run computes it from machine, input and worker behaviour (cross-checked against the events "
+                       "the crash-free run published), the schedule from the run's handler invocations "
                        "(events by publication ordinal, the crash as an operation or as a cut after the k-th publish/ack of a "
                        "handler); with the switches of the open findings on the model must predict whether the execution ends and "
                        "what it is left waiting for (model.* in the distribution); a stuck run is the known finding f exactly when "
